@@ -11,7 +11,7 @@ Proved here:
   regenerated database that the draw / engage / disengage paths emit is accepted by the strict reference tokenizer
   (the Lean ECMA-48 emulator) without complaint, after padding removal — kernel evaluation over the database.
 * `param_caps_accepted_samples` — the parameterised ones on a grid of parameter values; this is a kernel-evaluated
-  *test*, not the unbounded claim (the unbounded claim for cursor addressing is `Tcell.Lemmas.LayerB`).
+  *test*, not the unbounded claim (the unbounded claim for cursor addressing is `Tcell.Props.C01B.cup_accepted_all`; closed forms of the other expansions: `Tcell.LayerB.parm_*`).
 What is validated rather than proved: that every byte stream the implementation writes is accepted by the strict
 tokenizer (checked on every run for draw histories and the all-code-points sweep).
 -/
